@@ -358,6 +358,7 @@ def call_method(ex, st, o, name, pos, kw, node):
     # with a (non-inline) contract for this method -- a class-level contract covers its subclasses -- or,
     # failing that, the resolved function itself
     exact = getattr(o, "exactcls", None)
+    static = [sc for sc in ex.static_classes(o) if sc in ex.P.classes]
     regroup = {}
     missing = [c for fi, concs in groups.items() if fi is None for c in concs]
     if missing and not ex.spec_mode:
@@ -374,10 +375,12 @@ def call_method(ex, st, o, name, pos, kw, node):
                 for m in ex.P.mro(c):
                     k = m + "." + name
                     if k in ex.S.contracts and not ex.S.contracts[k].inline:
+                        if ex.S.contracts[k].refines and not all(m in ex.P.mro(sc) for sc in static):
+                            continue        # a refinement: only for receivers statically known to be of that class
                         key = k
                         break
             if key is not None:
-                kfi = ex.P.lookup(key.split(".")[0], name)
+                kfi = ex.P.lookup(key.split(".")[0], name) or fi    # a class-level contract for a method the base class only declares by convention
                 regroup.setdefault(("contract", key, kfi), []).append(c)
             else:
                 regroup.setdefault(("fn", None, fi), []).append(c)
@@ -523,6 +526,27 @@ def spec_eval(ex, st, env, text, old=None, result=None):
         ex.old_stack.pop()
     st.heap = s.heap
     return ex.truthy(v, st)
+
+
+def spec_eval_value(ex, st, env, text, old=None, result=None):
+    """like spec_eval, but returns the symbolic value instead of its truth"""
+    tree = ast.parse(text.strip(), mode="eval").body
+    s = State()
+    s.heap, s.pc, s.known = st.heap, st.pc, st.known
+    s.epoch = st.epoch
+    s.guards = st.guards
+    s.env = dict(env)
+    if result is not None:
+        s.env["result"] = result
+    ex.spec_mode += 1
+    ex.old_stack.append(old)
+    try:
+        v = ex.ev1(tree, s)
+    finally:
+        ex.spec_mode -= 1
+        ex.old_stack.pop()
+    st.heap = s.heap
+    return v
 
 
 def parse_modifies(ex, st, env, entries):
